@@ -944,8 +944,8 @@ func (e *explorer) flush() {
 }
 
 func sig(cs *Case, clause string, nwant int) string {
-	return vlib.JoinSig(cs.Agg, cs.Type, clause, fmt.Sprintf("form=%s,multiblock=%v,multiarray=%v,multishard=%v",
-		cs.Win.Form, nwant > cs.M, len(cs.Chunks) > 1, cs.Mode != 0))
+	// aggregate / input type / violated clause / does the output span several blocks (carry-over paths)
+	return vlib.JoinSig(cs.Agg, cs.Type, clause, fmt.Sprintf("multiblock=%v", nwant > cs.M))
 }
 
 // sweep evaluates a sequence of series (rows) for one (family, M, type, agg, window, shard mode) through ONE result
